@@ -52,22 +52,54 @@ func runWorker(r *ev.Run, col *sqlgen.Collector) {
 	}
 	sort.Strings(accepted)
 
-	timed := func(name string, fn func()) {
+	// Wall budget: the phases run in the order below; a phase may use the share of the time
+	// still left that its weight has among the phases not yet run, so the phases added last
+	// (identifiers, observers) run first and the long enumerations can never starve the
+	// phases after them; time a phase does not use goes to the later ones.
+	type phase struct {
+		name   string
+		weight float64
+		fn     func(expired func() bool)
+	}
+	corpus := accepted
+	phases := []phase{
+		{"idents", 1, func(exp func() bool) {
+			extra := runIdents(exp, r.Thorough(), col)
+			corpus = append(append([]string{}, accepted...), extra...)
+			sort.Strings(corpus)
+			col.Info("idents_statements_added_to_splice_and_subst_corpus", len(extra))
+		}},
+		{"observers", 3, func(exp func() bool) { runObservers(exp, r.Thorough(), col) }},
+		{"grammar", 10, func(exp func() bool) { runGrammar(r, exp, col) }},
+		{"splice", 6, func(exp func() bool) { runSplice(r, exp, col, corpus) }},
+		{"subst", 3, func(exp func() bool) { runSubst(r, exp, col, corpus) }},
+	}
+	var left float64
+	for _, p := range phases {
+		if phaseOn(p.name) {
+			left += p.weight
+		}
+	}
+	for _, p := range phases {
+		if !phaseOn(p.name) {
+			continue
+		}
+		remaining := time.Until(workerDeadline)
+		slice := time.Duration(float64(remaining) * p.weight / left)
+		left -= p.weight
+		deadline := time.Now().Add(slice)
+		expired := func() bool { return time.Now().After(deadline) }
 		w0, c0 := time.Now(), cpuSeconds()
-		fn()
-		col.Info("phase_"+name+"_wall_s", round1(time.Since(w0).Seconds()))
-		col.Info("phase_"+name+"_cpu_s", round1(cpuSeconds()-c0))
-	}
-	if phaseOn("grammar") {
-		timed("grammar", func() { runGrammar(r, col) })
-	}
-	if phaseOn("splice") {
-		timed("splice", func() { runSplice(r, col, accepted) })
-	}
-	if phaseOn("subst") {
-		timed("subst", func() { runSubst(r, col, accepted) })
+		p.fn(expired)
+		col.Info("phase_"+p.name+"_wall_s", round1(time.Since(w0).Seconds()))
+		col.Info("phase_"+p.name+"_cpu_s", round1(cpuSeconds()-c0))
+		col.Info("phase_"+p.name+"_wall_slice_s", round1(slice.Seconds()))
 	}
 }
+
+// workerDeadline: end of this worker's wall budget (set in main from the -budget flag / the
+// tier default of ev).
+var workerDeadline time.Time
 
 func cpuSeconds() float64 {
 	var ru syscall.Rusage
@@ -86,6 +118,8 @@ func replay(col *sqlgen.Collector, c caseT) {
 	case "subst":
 		out := substOne(col, c)
 		fmt.Printf("replay subst: %s\n", out)
+	case "observers":
+		observersReplay(col, c)
 	default:
 		out, t := roundTrip(col, c)
 		if t != nil {
